@@ -112,7 +112,13 @@ class G:
                     inner.append((an, at))
                     itext.append(at.decl(an) + ";")
                 members.append((None, T(ak, members=inner, anon=True)))
-                text.append("%s { %s };" % (ak, " ".join(itext)))
+                aal = ""
+                if d(st.integers(0, 3)) == 0:
+                    # an alignment specifier on the anonymous member itself (same monotone rule as for named members below)
+                    self.maxal = max(getattr(self, "maxal", 0), d(st.sampled_from([16, 16, 32, 64])))
+                    aal = "_Alignas(%d) " % self.maxal
+                    self.labels.add("overaligned-anonymous-member")
+                text.append("%s%s { %s };" % (aal, ak, " ".join(itext)))
                 self.labels.add("anonymous-member")
             else:
                 mt = self.type(depth + 1)
